@@ -9,8 +9,14 @@ Import ListNotations.
 Local Open Scope N_scope.
 
 Definition hostE : endian := LE.
-Definition m_ldq := Host.ldq hostE helpers_LE.
-Definition m_stq := Host.stq hostE helpers_LE.
+(* [fbe]: the library was compiled with the big-endian helper set forced on this little-endian host (a deliberately
+   mismatched configuration whose - wrong - bytes the model instance (helpers = BE, memory = LE) must predict exactly;
+   it shows that every conversion site of the code uses the helper the model says it uses) *)
+Section Instance.
+Variable fbe : bool.
+Definition m_helpers : hset := if fbe then helpers_BE else helpers_LE.
+Definition m_ldq := Host.ldq hostE m_helpers.
+Definition m_stq := Host.stq hostE m_helpers.
 
 Inductive res :=
 | RVal (v:N)                   (* returned value *)
@@ -131,8 +137,8 @@ Definition s_can_create (brief:bool) (b:buf) (id:N) (payload:list N) (variant:N)
   if snd r <=? blen b then CB (fst r) (snd r) else CUnmod.
 
 (* ---- ACF-VSS ---- *)
-Definition m_ldw := Host.ldw hostE helpers_LE.
-Definition m_stw := Host.stw hostE helpers_LE.
+Definition m_ldw := Host.ldw hostE m_helpers.
+Definition m_stw := Host.stw hostE m_helpers.
 Definition of_outb (o:outcome buf) : res := match o with Ok b => RBuf (Some b) | OOB _ => ROob | Unmodelled => RUnmod end.
 Definition m_vss_pad (b:buf) (n:N) : res := of_outb (vss_pad m_ldq m_stq b n).
 Definition m_vss_calc (b:buf) : res := of_outN (vss_calc_path_len m_ldw m_ldq m_stq b).
@@ -166,3 +172,5 @@ Definition s_vss_get_path (b:buf) : option rpath := dec_path b.
 Definition s_vss_get_data (b:buf) : option rdata := dec_data b.
 Definition s_strs_pack (strs:list (list N)) : N * list N := (N.of_nat (List.length (enc_strings strs)), enc_strings strs).
 Definition s_strs_unpack (dl:N) (data:list N) : list (list N) := dec_strings (N.to_nat dl) (firstn (N.to_nat dl) data).
+
+End Instance.
